@@ -340,6 +340,11 @@ class Interp:
         m = self.models.get(id(fn))
         if m is not None:
             return m.fn(self, list(args), dict(kwargs))
+        if getattr(fn, "__self__", None) is bytes and getattr(fn, "__name__", "") == "fromhex" and not ops.all_concrete(list(args)):
+            # class methods of builtin types are fresh objects at every attribute access: matched by owner and name
+            from .models import m_fromhex
+
+            return m_fromhex(self, list(args), dict(kwargs))
         return self.raw_native(fn, args, kwargs, node)
 
     def raw_native(self, fn, args, kwargs, node=None):
